@@ -254,6 +254,9 @@ class Interp:
     def p_copy_p(self, eqn, x):
         return x
 
+    def p_device_put(self, eqn, *xs):
+        return list(xs)  # placement does not change values
+
     def p_pad(self, eqn, x, padv):
         cfg = eqn.params["padding_config"]
         if any(i != 0 for (_, _, i) in cfg) or any(lo < 0 or hi < 0 for (lo, hi, _) in cfg):
